@@ -309,7 +309,18 @@ class HintExec:
                 v = self.norm(env, d[1])
                 if isinstance(v, tuple) and v and v[0] == "opt":
                     return self._fork(v[1], b, bb, env, polled, crossed, path, top, out)
-                if v == NONE:
+                if isinstance(v, tuple) and v and v[0] == "sum" and len(v[1]) == 1 and v[1][0] in ("M1", "O1") and ("A", v[1][0]) not in env:
+                    # an upper bound (an Option<usize>) is tested: follow both arms, remembering on each what was learnt about it
+                    for a_ in ("some", "none"):
+                        e2 = dict(env)
+                        e2[("A", v[1][0])] = a_
+                        self._term(b, bb, e2, polled, crossed, path, top, out)
+                    return
+                if isinstance(v, tuple) and v and v[0] == "sum" and len(v[1]) == 1 and v[1][0] in ("M1", "O1"):
+                    a_ = env.get(("A", v[1][0]))
+                    tg = [tb for val, tb in t["targets"] if val == (1 if a_ == "some" else 0)]
+                    nxt = tg or [t["otherwise"]]
+                elif v == NONE:
                     tg = [tb for val, tb in t["targets"] if val == 0]
                     nxt = tg or [t["otherwise"]]
                 elif isinstance(v, tuple) and v and v[0] == "val":
